@@ -932,6 +932,13 @@ def build_case(ch, tier, force=None):
             nbuckets = ch.choice([1, 2, 3, 7, ch.int(1, 16)])
             head, tail = names[:symoffset], names[symoffset:]
             tail.sort(key=lambda nm: W.gnu_hash(nm.encode('utf-8')) % nbuckets)
+            if ch.bool(0.3):
+                # the symbols of one bucket must be adjacent; the order of the bucket groups is free (linkers emit them ascending)
+                groups = {}
+                for nm in tail:
+                    groups.setdefault(W.gnu_hash(nm.encode('utf-8')) % nbuckets, []).append(nm)
+                keys = ch.perm(sorted(groups))
+                tail = [nm for k in keys for nm in groups[k]]
             names = head + tail
             gnu = {'form': 'std', 'symoffset': symoffset, 'nbuckets': nbuckets, 'bloom_size': ch.choice([1, 2, 4, 8]),
                    'bloom_shift': ch.choice([0, 5, 6, 26, 31])}
